@@ -639,6 +639,88 @@ fn mode_strings(ms: &ModeSet, rng: &mut Rng, n_random: usize, enum_len: usize, f
     }
 }
 
+// ------------------------------------------------------------------------------------------------
+// family: classes with many (9-20) ranges; pairs of tokens whose large classes overlap (one is the
+// other with gaps punched / ranges dropped / a few characters added), so that the rendered
+// conditions need `additions` / `removals` relative to a shared large character set.  The input
+// alphabet is derived from the classes: every range boundary and its neighbours.
+
+fn ranges_of(chars: &[u32]) -> Vec<(u32, u32)> {
+    let mut v: Vec<u32> = chars.to_vec();
+    v.sort();
+    v.dedup();
+    let mut rs: Vec<(u32, u32)> = Vec::new();
+    for c in v {
+        match rs.last_mut() { Some((_, hi)) if *hi + 1 == c => *hi = c, _ => rs.push((c, c)) }
+    }
+    rs
+}
+
+fn rand_large_class_set(rng: &mut Rng) -> (TokSet, Vec<u32>) {
+    let universe: Vec<u32> = (0x30..=0x39).chain(0x61..=0x7a).collect();
+    // C1: alternating runs in / out, at least 9 ranges
+    let c1: Vec<u32> = loop {
+        let mut v = Vec::new();
+        let mut i = 0usize;
+        let mut inside = rng.chance(1, 2);
+        while i < universe.len() {
+            let run = rng.range(1, 3);
+            if inside { for k in i..(i + run).min(universe.len()) { v.push(universe[k]); } }
+            i += run;
+            inside = !inside;
+        }
+        let n = ranges_of(&v).len();
+        if (9..=20).contains(&n) { break v; }
+    };
+    // variants of C1: punch gaps, drop ranges, add a few characters
+    let variant = |rng: &mut Rng| -> Vec<u32> {
+        let mut v = c1.clone();
+        for _ in 0..rng.range(1, 3) { if v.len() > 6 { let i = rng.below(v.len()); v.remove(i); } }
+        if rng.chance(1, 2) { let rs = ranges_of(&v); let (lo, hi) = *rng.pick(&rs); v.retain(|c| *c < lo || *c > hi); }
+        for _ in 0..rng.below(3) { let c = *rng.pick(&universe); if !v.contains(&c) { v.push(c); } }
+        v
+    };
+    let cls = |chars: &[u32]| Re::Cls(false, ranges_of(chars));
+    let suffixes = [0x21u32, 0x2b, 0x3b];
+    let mut toks: Vec<Tok> = Vec::new();
+    let p = |rng: &mut Rng| if rng.chance(1, 4) { 1 } else { 0 };
+    toks.push(Tok { prec: p(rng), is_string: false, re: Re::Plus(Box::new(cls(&c1))) });
+    for k in 0..rng.range(1, 3) {
+        let v = variant(rng);
+        let body = Re::Plus(Box::new(cls(&v)));
+        let re = match rng.below(3) {
+            0 => Re::Seq(Box::new(body), Box::new(Re::Lit(vec![suffixes[k % 3]]))),
+            1 => Re::Seq(Box::new(Re::Lit(vec![suffixes[k % 3]])), Box::new(body)),
+            _ => Re::Seq(Box::new(cls(&v)), Box::new(Re::Seq(Box::new(Re::Lit(vec![suffixes[k % 3]])), Box::new(Re::Opt(Box::new(cls(&c1))))))),
+        };
+        if toks.iter().any(|t| t.re.ser() == re.ser()) { continue; }
+        let at = rng.below(toks.len() + 1);
+        toks.insert(at, Tok { prec: p(rng), is_string: false, re });
+    }
+    if rng.chance(1, 2) {
+        let v: Vec<u32> = universe.iter().copied().filter(|c| !c1.contains(c)).collect();
+        toks.push(Tok { prec: 0, is_string: false, re: Re::Plus(Box::new(cls(&v))) });
+    }
+    if rng.chance(1, 2) { toks.push(Tok { prec: 0, is_string: true, re: Re::Lit(vec![*rng.pick(&suffixes)]) }); }
+    // alphabet: all range boundaries of all classes and their neighbours, the suffix characters, the blank
+    let mut alpha: Vec<u32> = vec![0x20];
+    alpha.extend(suffixes);
+    fn bounds(re: &Re, out: &mut Vec<u32>) {
+        match re {
+            Re::Cls(_, rs) => for (a, b) in rs { out.extend([a.saturating_sub(1), *a, *b, b + 1]); },
+            Re::Seq(a, b) | Re::Alt(a, b) => { bounds(a, out); bounds(b, out); }
+            Re::Star(a) | Re::Plus(a) | Re::Opt(a) | Re::Rep(_, _, a) => bounds(a, out),
+            Re::Lit(_) => {}
+        }
+    }
+    for t in &toks { bounds(&t.re, &mut alpha); }
+    alpha.retain(|c| *c == 0x20 || (0x21..0x7f).contains(c));
+    alpha.sort();
+    alpha.dedup();
+    let extras = if rng.chance(1, 2) { 0 } else { rng.range(1, EXTRAS_SHAPES - 1) };
+    (TokSet { word: None, extras, toks }, alpha)
+}
+
 fn run_set(out: &mut impl Write, id: &str, ts: &TokSet, strings: &mut dyn FnMut(&mut dyn FnMut(&[u32]))) -> Result<usize, String> {
     let name = format!("c14_{}", id.replace('-', "_"));
     let b = zoo::build_from_json(&ts.grammar(&name), None, tree_sitter_generate::OptLevel::default())?;
@@ -715,6 +797,22 @@ fn main() {
             // random strings of the next length, and longer ones with spaces
             for _ in 0..n_len_next { let v: Vec<u32> = (0..full_len + 1).map(|_| *srng.pick(&enum_syms)).collect(); f(&v); }
             for _ in 0..n_long { let len = srng.range(6, 40); let v: Vec<u32> = (0..len).map(|_| *srng.pick(&syms)).collect(); f(&v); }
+        };
+        match run_set(&mut out, &id, &ts, &mut gen) {
+            Ok(n) => { built += 1; total += n; }
+            Err(e) => { rejected += 1; writeln!(out, "skip {id} {} {}", ts.ser(), e.replace('\n', " ").chars().take(160).collect::<String>()).unwrap(); }
+        }
+    }
+    // many-range classes with overlapping variants, alphabet derived from the class boundaries
+    let (n_large, n_rand_large) = if thorough { (60, 6000) } else { (12, 2500) };
+    for k in 0..n_large {
+        let mut srng = rng.fork();
+        let (ts, alpha) = rand_large_class_set(&mut srng);
+        let id = format!("L{}-{k}", seed_from_env() % 100000);
+        let mut gen = |f: &mut dyn FnMut(&[u32])| {
+            f(&[]);
+            for a in &alpha { f(&[*a]); for b in &alpha { f(&[*a, *b]); } }
+            for _ in 0..n_rand_large { let len = srng.range(3, 6); let v: Vec<u32> = (0..len).map(|_| *srng.pick(&alpha)).collect(); f(&v); }
         };
         match run_set(&mut out, &id, &ts, &mut gen) {
             Ok(n) => { built += 1; total += n; }
